@@ -817,21 +817,26 @@ def shard_create_copy(desc, rec):
                 pass
         open(p, "wb").write(content)
         rec.count("oracle:C17.open-non-tdf(object created earlier)")
-        for how_, fn_ in (("with", lambda: t_old.__enter__() and (t_old.nEntries, len(t_old.entries))), ("len(blocks)", lambda: len(t_old.blocks)),
-                          ("has_events", lambda: t_old.has_events)):
+        # every attempt is judged, also the ones that follow a refused attempt on the same object (a refusal must not
+        # leave the object in a state in which it answers from what it parsed earlier)
+        attempts = [("with", lambda: t_old.__enter__() and (t_old.nEntries, len(t_old.entries))), ("len(blocks)", lambda: len(t_old.blocks)),
+                    ("has_events", lambda: t_old.has_events), ("len", lambda: len(t_old)), ("has_data3D", lambda: t_old.has_data3D),
+                    ("get_block(0)", lambda: t_old.get_block(0)), ("events", lambda: t_old.events)]
+        rng.shuffle(attempts)
+        for q_, (how_, fn_) in enumerate(attempts[:4] * 2):
+            rec.count("oracle:C17.open-non-tdf:attempt-on-one-object")
             try:
                 got = fn_()
-                V(f"open:non-tdf-yields-data:{what}", f"{how_} through an object created while the path still held a TDF file, "
-                  f"now a {what} file: {got!r}", case)
-                break
-            except Exception:
-                pass
-            finally:
+                V(f"open:non-tdf-yields-data:{what}", f"{how_} (attempt {q_ + 1} on one object created while the path still held a TDF "
+                  f"file, now a {what} file; earlier attempts were refused): {got!r}", case)
                 try:
                     if getattr(t_old, "_inside_context", False):
                         t_old.__exit__(None, None, None)
                 except Exception:
                     pass
+                break
+            except Exception:
+                pass
         fds = io_audit.fds_on(p)
         if fds:
             rec.count("c17:fd-left-after-refused-open(not judged)")
